@@ -8,7 +8,7 @@ from ..core import Failure
 from ..model import MP, arr_map, mp_close
 
 ID = "C05"
-BUDGET = {"quick": 600, "thorough": 1200}
+BUDGET = {"quick": 600, "thorough": 2500}
 TECHNIQUE = ("Hypothesis-generated dividend/divisor classes with a loop-state monitor (repeated digest = "
              "non-termination witness) vs division identity, cofactor and degree oracles in the exact model; "
              "operator/function differential")
